@@ -81,7 +81,10 @@ class VC:
         self.stubs_used = set()
         self.assumed = set()  # names of assumed contracts (trusted base) touched
         self._seq = 0
-        self._path_ob_names = None
+        self._failures = 0
+        self._cand_n = 0
+        self.gens = {}
+        self.seed = 0
 
     # ------------------------------------------------------------------ inputs
     @property
@@ -302,6 +305,22 @@ class VC:
     # ------------------------------------------------------------------ solving (sym mode)
     def _record(self, name, kind, c: SymBool, detail):
         goal = c.z if c.u is None else z3.And(z3.Not(c.u), c.z)
+        if kind != "canary" and z3.is_and(goal):
+            # prove conjuncts separately (cheap ones vanish; the failing one is named precisely)
+            parts = _flatten_and(goal)
+            if len(parts) > 1:
+                parts = [p for p in parts if not _cheaply_valid(p)]
+                if not parts:
+                    goal = z3.BoolVal(True)
+                elif len(parts) > 1:
+                    for i, p in enumerate(parts):
+                        self._record_one(f"{name}#c{i}" if i else name, kind, p, detail)
+                    return
+                else:
+                    goal = parts[0]
+        self._record_one(name, kind, goal, detail)
+
+    def _record_one(self, name, kind, goal, detail):
         pc = list(CTX.pc)
         key = (name, goal.get_id(), tuple(t.get_id() for t in pc))
         if key in self.obligations:
@@ -339,6 +358,8 @@ class VC:
             return "unknown", None, None, "canary timeout"
         if z3.is_true(goal):
             return "discharged", "trivial", None, None
+        if _cheaply_valid(goal):
+            return "discharged", "polyid", None, None
         g = z3.simplify(goal)
         if z3.is_true(g):
             return "discharged", "z3-simplify", None, None
@@ -348,11 +369,13 @@ class VC:
                 return "discharged", "z3-simplify-som", None, None
         except z3.Z3Exception:
             pass
-        # 1. incremental check on the path solver
+        budget_left = self._failures < 3
+        short = min(self.timeout_s, 4)
+        # 1. incremental check on the path solver (short budget first)
         s = CTX.solver
         s.push()
         try:
-            s.set("timeout", int(self.timeout_s * 1000))
+            s.set("timeout", int(short * 1000))
             s.add(z3.Not(goal))
             r = s.check()
             if r == z3.unsat:
@@ -360,11 +383,20 @@ class VC:
             if r == z3.sat:
                 m = s.model()
                 if self._model_ok(m, pc, goal):
+                    self._failures += 1
                     return "refuted", "z3", self._extract(m), None
         finally:
             s.pop()
             s.set("timeout", CTX.feas_timeout_ms)
-        # 2. fresh one-shot solver (different tactic pipeline)
+        # 2. refutation by candidate inputs: substitute random admissible inputs, solve the residual
+        cm = self._candidate_refute(pc, goal)
+        if cm is not None:
+            self._failures += 1
+            return "refuted", "z3-candidate", cm, None
+        if not budget_left:
+            self._failures += 1
+            return "unknown", None, None, "skipped: this configuration already has 3 failed obligations"
+        # 3. fresh one-shot solver (different tactic pipeline), full budget
         s2 = z3.Solver()
         s2.set("timeout", int(self.timeout_s * 1000))
         s2.add(*pc)
@@ -375,9 +407,10 @@ class VC:
         if r == z3.sat:
             m = s2.model()
             if self._model_ok(m, pc, goal):
+                self._failures += 1
                 return "refuted", "z3-fresh", self._extract(m), None
         reason = s2.reason_unknown() if r == z3.unknown else "model-not-validated"
-        # 3. external solvers on the SMT-LIB dump
+        # 4. external solvers on the SMT-LIB dump
         smt = s2.to_smt2()
         for exe, args in (("/usr/bin/cvc5", ["--lang=smt2", f"--tlimit={int(self.timeout_s*1000)}", "--nl-ext-tplanes"]),):
             if not os.path.exists(exe):
@@ -393,7 +426,47 @@ class VC:
                     return "discharged", "cvc5", None, None
             except Exception as e:  # pragma: no cover
                 reason = f"{reason}; cvc5: {e}"
+        self._failures += 1
         return "unknown", None, None, reason
+
+    def _candidate_refute(self, pc, goal, tries=3):
+        """substitute random admissible input values (the contract's generators), ask z3 for the rest"""
+        if not self.inputs:
+            return None
+        import random as _random
+
+        for t in range(tries):
+            rng = _np.random.default_rng(self.seed * 7919 + self._cand_n)
+            self._cand_n += 1
+            subs, vals = [], {}
+            for name, shape in self.inputs.items():
+                g = self.gens.get(name)
+                v = g(rng, shape, self.cfg) if g else rng.uniform(0.1, 2.0, size=shape)
+                v = _np.asarray(v, dtype=float).reshape(shape)
+                # keep candidate values short rationals
+                if shape == ():
+                    fr = Fraction(float(v)).limit_denominator(64)
+                    subs.append((z3.Real(name), z3.Q(fr.numerator, fr.denominator)))
+                    vals[name] = str(fr)
+                else:
+                    lst = []
+                    for idx in _np.ndindex(*shape):
+                        fr = Fraction(float(v[idx])).limit_denominator(64)
+                        nm = name + "[" + ",".join(map(str, idx)) + "]"
+                        subs.append((z3.Real(nm), z3.Q(fr.numerator, fr.denominator)))
+                        lst.append(str(fr))
+                    vals[name] = lst
+            s3 = z3.Solver()
+            s3.set("timeout", 2000)
+            try:
+                for c in pc:
+                    s3.add(z3.substitute(c, *subs))
+                s3.add(z3.Not(z3.substitute(goal, *subs)))
+            except z3.Z3Exception:
+                return None
+            if s3.check() == z3.sat:
+                return vals
+        return None
 
     def _model_ok(self, m, pc, goal):
         """validate the counter-model by evaluation (guards against bogus models of NRA/UF)"""
@@ -500,6 +573,27 @@ class VC:
             ],
             "notes": self.notes,
         }
+
+
+def _flatten_and(t):
+    out, stack = [], [t]
+    while stack:
+        e = stack.pop()
+        if z3.is_and(e):
+            stack.extend(reversed(e.children()))
+        else:
+            out.append(e)
+    return out
+
+
+def _cheaply_valid(t):
+    from . import polyid
+
+    if z3.is_true(t):
+        return True
+    if z3.is_eq(t) and t.children()[0].sort_kind() == z3.Z3_REAL_SORT:
+        return polyid.is_identity(t)
+    return False
 
 
 def _free_consts(t):
